@@ -3,7 +3,10 @@
 projection (which record fields it compares) and oracle."""
 from __future__ import annotations
 
+import warnings
 from fractions import Fraction
+
+warnings.filterwarnings("ignore", category=RuntimeWarning)
 
 from . import core
 from .builder_impl import Impl, parse_record, show
@@ -307,3 +310,25 @@ def correspond(R: core.Run, histories: list[list[str]], keys, exact: bool, label
                            {k: parse_record(ir).get(k) for k in bad}, {k: parse_record(mr).get(k) for k in bad}, step=i)
                 break
     return done
+
+
+def replay(data, keys, oracle=None) -> int:
+    """Re-execute a recorded history on the implementation and the model; re-evaluate the oracle."""
+    fl = data.get("failure") or data.get("first") or {}
+    case = fl.get("case") or {}
+    h = case.get("history")
+    if not h:
+        print("replay: no history recorded; no longer checks:", data.get("no_longer_checks"))
+        return 1
+    lines, recs, im = run_impl([__import__("re").sub(r" h=\S+", "", l) for l in h])
+    mrecs = run_model([lines])[0]
+    bad = 0
+    for i, (ln, ir, mr) in enumerate(zip(lines, recs, mrecs)):
+        d = diff(ir, mr, keys, True)
+        print(f"[{i}] {ln}\n     impl : {ir}\n     model: {mr}" + (f"\n     DIFF {d}" if d else ""))
+        bad += bool(d)
+    if oracle:
+        for step, msg, tag in oracle(lines, recs, im) or []:
+            print(f"oracle: step {step}: {msg} [{tag}]")
+            bad += 1
+    return 1 if bad else 0
